@@ -58,6 +58,7 @@ RUNTIME_C05 = {
         {"name": "wasm_delay_refuses_bad_length", "bound": True, "fn": "wasm.rs state_delay_host (X1)", "doc": "len<=0 or >MAX: returns 0.0, no state change"},
         {"name": "wasm_mem_equals_vm", "bound": True, "fn": "wasm.rs state_mem_host (X1) vs VM Mem arm", "doc": "bit-identical result and words"},
         {"name": "wasm_push_pop_equals_vm", "bound": False, "fn": "wasm.rs state_{push,pop}_host (X1) vs vm.rs push_pos/pop_pos", "doc": "full domain"},
+        {"name": "delay_samples_in_range", "bound": False, "fn": "wasm.rs state_delay_host: `time.clamp(0.0, (len-1) as f64) as u64`", "doc": "full domain: every f64, every length 1..=2^24: result <= len-1 (the fact the Verus unit wasm_state assumes for its uninterpreted float expression)"},
         {"name": "vm_arm_mem_equals_wasm", "bound": True, "fn": "vm.rs Machine::execute arm Instruction::Mem (X4) vs wasm.rs state_mem_host", "doc": "dst := old word, cell := src, frame on stack and state; == WASM host"},
         {"name": "vm_arm_get_state", "bound": True, "fn": "vm.rs Machine::execute arm Instruction::GetState (X4)", "doc": "copies exactly `size` words cursor -> registers, frame"},
         {"name": "vm_arm_set_state", "bound": True, "fn": "vm.rs Machine::execute arm Instruction::SetState (X4)", "doc": "copies exactly `size` words registers -> cursor cell, frame"},
@@ -79,10 +80,11 @@ RUNTIME_C12 = {
     ],
 }
 PROPS["C05"] = {
-    "verus_units": ["state_tree", "delay_history"],
+    "verus_units": ["state_tree", "delay_history", "wasm_state"],
     "kani_units": [RUNTIME_C05],
     "floor": {"obligations": 50},
     "trusted_base": ST_TRUSTED + [
+        "unit wasm_state (Verus, UNBOUNDED in the number of state words): state_push_host / state_pop_host / state_mem_host / state_delay_host of wasm.rs cut with rule X1 (as per-cut rewrites); f64::from_bits / to_bits uninterpreted; the expression `time.clamp(0.0, (len-1) as f64) as u64` is replaced by the helper vx_delay_samples whose range fact `<= len-1` is ASSUMED in Verus and DISCHARGED full-domain by the Kani harness delay_samples_in_range; std specifications added for i64::unsigned_abs and Result::unwrap_or",
         "Kani harness crate: real ringbuffer.rs compiled unchanged (#[path]); StateStorage of vm.rs and StateStorage + state_*_host of wasm.rs cut verbatim (rule X1 for the host functions)",
         "Vec::resize is stubbed by a panicking function in the WASM harnesses: lazy growth is proved unreachable inside a layout-sized storage",
         "the VM instruction arms GetState / SetState / PushStatePos / PopStatePos / Delay / Mem are cut verbatim out of Machine::execute (rule X4: match arm re-headed as a method) together with get_stack / get_stack_range / set_stack / set_stack_range / set_vec_range / to_value, over a REDUCED Machine (fields stack, base_pointer, global_states, delaysizes_pos_stack, one FuncProto with delay_sizes; get_current_state reduced to the global storage, get_fnproto to that one prototype). WHICH delay_sizes entry the Delay arm selects is not decided by any harness -- known finding F5 (the index is never advanced)",
@@ -95,7 +97,7 @@ PROPS["C05"] = {
         "that mirgen/bytecodegen/wasmgen emit PushStateOffset/PopStateOffset/GetState/Delay/Mem whose dynamic cursor equals path_to_address of the call site, and that the cursor is back at 0 when dsp returns: a statement about all programs and a 4.8 kLoC recursive generator over interned ASTs; no contract within reach",
         "state_get_host / state_set_host (copy through wasmtime linear memory)",
     ],
-    "explanation": "C05 run-time half: (i) layout arithmetic (total_size, path_to_address = prefix sums, children tile the parent: lemma_addr_in_bounds, lemma_node_push) proved in Verus; (ii) each run-time primitive touches exactly the words of the cell at the cursor (Kani, bit-precise); (iii) VM and WASM host primitives perform the same transformation of the flat words (Kani relational harnesses); (iii') the VM instruction arms themselves (cut from Machine::execute) touch exactly their destination registers and the cell at the cursor, and the Mem / Delay arms agree bit for bit with the WASM host functions; (iv) k-step delay history lemma over the one-step spec (Verus unit delay_history: feeding x0,x1,.. and reading with delay d in [1,len-1] returns x[k-d], 0 before that).",
+    "explanation": "C05 run-time half: (i) layout arithmetic (total_size, path_to_address = prefix sums, children tile the parent: lemma_addr_in_bounds, lemma_node_push) proved in Verus; (ii) each run-time primitive touches exactly the words of the cell at the cursor (Kani, bit-precise; for the WASM host functions additionally proved in Verus for a storage of ANY length: unit wasm_state -- cursor moves change only the cursor, mem swaps exactly the word at the cursor, delay performs exactly the one-step ring-buffer function on the cell's 2+len words, refused lengths change nothing, no lazy growth inside a layout-sized storage); (iii) VM and WASM host primitives perform the same transformation of the flat words (Kani relational harnesses); (iii') the VM instruction arms themselves (cut from Machine::execute) touch exactly their destination registers and the cell at the cursor, and the Mem / Delay arms agree bit for bit with the WASM host functions; (iv) k-step delay history lemma over the one-step spec (Verus unit delay_history: feeding x0,x1,.. and reading with delay d in [1,len-1] returns x[k-d], 0 before that).",
     "samples": [
         {"obligation": "path_to_address::ensures", "clause": "r == Some((addr_off(self,path), size(node_at(self,path)))) iff wf_path"},
         {"obligation": "vm_delay_one_step_spec", "clause": "res == words[pos+2+(w+len-d)%len]; words'[pos]=r; words'[pos+1]=(w+1)%len; words'[pos+2+w]=input; all other words unchanged"},
